@@ -502,6 +502,26 @@ func (x *exec) loopWrites(h *ssa.BasicBlock) *writeSet {
 func (x *exec) addWriteHeap(w *writeSet, addr ssa.Value) {
 	switch a := addr.(type) {
 	case *ssa.FieldAddr:
+		// a store to one field of a struct cell writes only the heaps of that field
+		if pt, ok := a.X.Type().Underlying().(*types.Pointer); ok && isGoStruct(pt.Elem()) && x.p.T.OwnedOf(a.X.Type()) == nil {
+			if _, direct := a.X.(*ssa.FieldAddr); !direct {
+				if _, viaIndex := a.X.(*ssa.IndexAddr); !viaIndex {
+					si := x.p.T.StructOf(pt.Elem())
+					f := si.Fields[a.Field]
+					w.arr(x, pt.Elem()) // the pointer may point at an element of a slice of such structs
+					if isGoStruct(f.Type()) {
+						w.root(x, f.Type())
+					} else {
+						var out []leaf
+						x.env.leafNames("H$"+si.Sort.Name+"."+sanitize(f.Name()), x.p.T.SortOf(f.Type()), &out)
+						for _, lf := range out {
+							w.heaps[lf.name] = lf.sort
+						}
+					}
+					return
+				}
+			}
+		}
 		x.addWriteHeap(w, a.X)
 		return
 	case *ssa.IndexAddr:
